@@ -6,7 +6,7 @@
 #  (3) the demonstration passes without the change.
 # Prints CONFIRMED or NOT-CONFIRMED with the three outcomes.
 seed="$1"
-wt=/tmp/wt-confirm
+wt=${WT:-/tmp/wt-confirm}
 head=$(git -C /repo rev-parse HEAD)
 [ -d $wt ] || git -C /repo worktree add -q --detach $wt "$head" || exit 2
 git -C $wt checkout -q -- . && git -C $wt clean -fdq -e target && git -C $wt checkout -q --detach "$head" || exit 2
